@@ -3,14 +3,12 @@ package sched
 import (
 	"errors"
 	"fmt"
-	"sort"
 	"strings"
 	"testing"
 	"time"
 
 	"github.com/hashicorp/raft"
 	wal "github.com/hashicorp/raft-wal"
-	"github.com/hashicorp/raft-wal/segment"
 	"pgregory.net/rapid"
 
 	"verifharness/common"
@@ -35,28 +33,7 @@ type C13Case struct {
 	Loaders []int `json:"loaders,omitempty"`
 }
 
-func dirVsMeta(fs *simfs.FS) (extra, missing []string) {
-	st, _ := fs.MetaState()
-	want := map[string]bool{}
-	for _, si := range st.Segments {
-		want[segment.FileName(si)] = true
-	}
-	have := map[string]bool{}
-	for _, n := range fs.Names() {
-		have[n] = true
-		if !want[n] {
-			extra = append(extra, n)
-		}
-	}
-	for n := range want {
-		if !have[n] {
-			missing = append(missing, n)
-		}
-	}
-	sort.Strings(extra)
-	sort.Strings(missing)
-	return
-}
+func dirVsMeta(fs *simfs.FS) (extra, missing []string) { return kit.DirVsMeta(fs) }
 
 func runC13(c C13Case) common.Result { return runC13x(c, false) }
 
